@@ -18,6 +18,7 @@ import (
 	"os"
 	"regexp"
 	"sort"
+	"strings"
 	"sync"
 	"time"
 
@@ -42,10 +43,19 @@ type violation struct {
 	seq         int
 }
 
+// add records a disagreement.  A class "part:a+b" (two explanations are needed together) is reported once per
+// explanation, so that the known-findings list is keyed by single explanations and an unlisted one still fails.
 func (v *violations) add(class, what string, replay any) {
 	v.mu.Lock()
-	v.list = append(v.list, violation{class, what, replay, len(v.list)})
-	v.mu.Unlock()
+	defer v.mu.Unlock()
+	part, rest, ok := strings.Cut(class, ":")
+	if !ok {
+		v.list = append(v.list, violation{class, what, replay, len(v.list)})
+		return
+	}
+	for _, cause := range strings.Split(rest, "+") {
+		v.list = append(v.list, violation{part + ":" + cause, what, replay, len(v.list)})
+	}
 }
 
 var (
